@@ -180,7 +180,7 @@ CHECKS = {
         pkg="c09", level="translation_validation",
         rule="exhaustive over the finite set: every generated file of the working tree (6 genny outputs + one wrapper per OW-SPEC block found by an independent YAML scan of models/**) is deleted in a scratch copy, regenerated with genny (built from the module cache) and ow-specgen (built from the tree) and compared byte-for-byte; generated files without a directive/spec and specs without a file are failures; "
              "every spec block is compared with sim.Catalog and Description() (parameter names, defaults, ranges, dimensions; inputs, states, outputs in spec order) through a YAML reading that does not use the generator's code; "
-             "plus the invocations of ow-specgen a developer types, enumerated (the whole tree and every directory in glob order and reversed, every spec file followed by the next one) and rapid-drawn subsets and orders of 1..all spec files handed to one invocation (and of genny directives): the output must not depend on them. Every file / spec block counts as non-trivial; distinct = file path / model name / invocation",
+             "plus the invocations of ow-specgen a developer types, enumerated (the whole tree and every directory in glob order and reversed, every spec file followed by the next one; thorough tier: every ordered pair of spec files) and rapid-drawn subsets and orders of 1..all spec files handed to one invocation (and of genny directives): the output must not depend on them. Every file / spec block counts as non-trivial; distinct = file path / model name / invocation",
         assumptions=["genny is built from the module cache at the version go.sum pins", "the comparison is of files, not of behaviour: it shows the checked-in code is the generators' output, so the template-level results of C04/C05 apply to all 41 wrappers and 8 element types"],
         quick=dict(stages=[st(8, timeout=900)]),
         thorough=dict(stages=[st(120, shards=8, timeout=3000)]),
